@@ -185,7 +185,9 @@ fn python_parse_chunk(docs: &[String], k: usize) -> Vec<J> {
     if std::fs::write(&path, serde_json::to_string(docs).unwrap()).is_err() {
         vcommon::machinery_failure("C27: cannot write the XML batch file");
     }
-    let out = std::process::Command::new("python3")
+    // the system interpreter directly: the `python3` found first on PATH may be a slow shim
+    let py = if std::path::Path::new("/usr/bin/python3").exists() { "/usr/bin/python3" } else { "python3" };
+    let out = std::process::Command::new(py)
         .arg("-I")
         .arg("-S")
         .arg("-c")
